@@ -89,6 +89,13 @@ const STEPS: &[(&str, &str)] = &[
     ("exec 3>f; echo aaaa >&3; : >f; echo b >&3; exec 3>&-; cat <f | cat", "write-after-truncate-keeps-offset"),
     ("echo 123456789 >f; exec 3<f; read x <&3; : >f; echo zz >>f; read y <&3; echo \"$x|$y|$?\"; exec 3<&-", "read-after-truncate"),
     ("exec 3<e; exec 3<&-; cat <&3; echo $?", "closed-after-exec"),
+    // descriptor limits: a system call that fails for lack of descriptors allocates nothing
+    ("(trap 'ulimit -S -n 64; cat <&3; echo r=$?' EXIT; ulimit -S -n 4; echo a | cat); echo st=$?", "pipe-under-descriptor-limit"),
+    ("(trap 'ulimit -S -n 64; cat <&3; echo r=$?; cat <&4; echo r=$?' EXIT; ulimit -S -n 4; x=$(echo hi); echo \"$x\"); echo st=$?", "pipe-under-descriptor-limit"),
+    ("(ulimit -S -n 5; echo a | cat; echo st=$?)", "pipe-under-descriptor-limit"),
+    ("(ulimit -S -n 12; echo a | cat | cat; echo st=$?)", "pipe-under-descriptor-limit"),
+    ("(ulimit -S -n 4; exec 3<e; echo $?; exec 4<e; echo $?; cat <&3)", "open-under-descriptor-limit"),
+    ("(ulimit -S -n 11; echo x >f; echo st=$?; cat <f; { echo y >f; } >&2; echo st=$?; cat <f)", "open-under-descriptor-limit"),
     ("cat <<E\nhere $((1+1))\nE", "here-document"),
     ("cat <<E | cat\npiped\nE", "here-document-pipeline"),
     ("cd d; cd ..; cd -; pwd", "cd-oldpwd"),
